@@ -9,7 +9,7 @@ import threading
 import fiddle as fdl
 from fiddle._src import history as fdl_history
 
-from harness import argstore, common, family, targets
+from harness import argstore, common, family, graphs, targets
 
 FIELDS = ['res', 'hist', 'seqs', 'tags']
 SEEN_SEQS: set = set()        # sequence ids seen in this run, across all configurations
@@ -45,6 +45,11 @@ def cases(tier, r):
       case['init_suspended'] = True       # constructed inside `with suspend_tracking():`
     yield 'random', case
 
+
+  for how in ('suspend', 'switch'):
+    for depth in (1, 2, 3):
+      for second in (False, True):
+        yield 'threads', {'threads_stage': True, 'how': how, 'depth': depth, 'second': second}
 
   # stage C: direct edits made from frames with arbitrary file names (code compiled from a
   # string, a notebook cell, user files whose names resemble Fiddle's): the recorded location
@@ -138,7 +143,68 @@ def widen(tier, r):
     yield 'widen', {'p': 'argstore', 'sig': sig, 'args': args, 'kwargs': kwargs, 'ops': ops}
 
 
+def _hist_values(cfg, name):
+  return [('deleted' if e.new_value is fdl_history.DELETED else e.new_value)
+          for e in cfg.__argument_history__.get(name, [])]
+
+
+def run_threads(case):
+  """Tracking is per thread: while THIS thread is inside (nested) suspend_tracking() blocks - or has
+  switched tracking off - another thread editing its own configuration still logs every change,
+  and a thread that starts, edits and ends does not switch tracking back on here."""
+  import threading
+  f = graphs.node_fn(1, 0)
+  main_cfg = fdl.Config(f, p=1)
+  out = {}
+
+  def worker(tag):
+    try:
+      c = fdl.Config(f, p=1)
+      c.p = 2
+      c.q = 3
+      del c.q
+      out[tag] = {'p': _hist_values(c, 'p'), 'q': _hist_values(c, 'q'), 'value': c.p}
+    except Exception as e:
+      out[tag] = f'raised {type(e).__name__}: {e}'[:160]
+
+  def run_worker(tag):
+    t = threading.Thread(target=worker, args=(tag,))
+    t.start()
+    t.join()
+
+  how = case['how']
+  run_worker('before')
+  cms = []
+  if how == 'switch':
+    fdl_history.set_tracking(False)
+  else:
+    for _ in range(case['depth']):
+      cm = fdl_history.suspend_tracking()
+      cm.__enter__()
+      cms.append(cm)
+  try:
+    main_cfg.q = 5                       # suspended: no entry
+    run_worker('during')                 # a new thread: tracks, and leaves this thread suspended
+    main_cfg.r = 6                       # still suspended: no entry
+    if case['second']:
+      run_worker('during2')
+      main_cfg.q = 7
+  finally:
+    if how == 'switch':
+      fdl_history.set_tracking(True)
+    else:
+      while cms:
+        cms.pop().__exit__(None, None, None)
+  main_cfg.p = 8                         # tracked again
+  run_worker('after')
+  return {'threads_stage': True, 'workers': out,
+          'main_suspended_entries': {n: _hist_values(main_cfg, n) for n in ('q', 'r') if _hist_values(main_cfg, n)},
+          'main_p': _hist_values(main_cfg, 'p')}
+
+
 def execute(case):
+  if case.get('threads_stage'):
+    return run_threads(case), None
   if case.get('stack'):
     real = run_stack(case)
     # the model runs on the real stack of the LAST entry's provider call (line numbers of the
@@ -162,6 +228,8 @@ def execute(case):
 
 
 def compare(real, model):
+  if real.get('threads_stage'):
+    return []
   if real.get('stack'):
     if len(real['stacks']) != len(real['locs']):
       return [('stack', 'provider calls vs entries', len(real['stacks']), len(real['locs']))]
@@ -207,6 +275,18 @@ def check_state(state):
 
 
 def oracle(case, real):
+  if real.get('threads_stage'):
+    want = {'p': [1, 2], 'q': [3, 'deleted'], 'value': 2}
+    for tag, got in real['workers'].items():
+      if got != want:
+        return {'what': f'a thread editing its own configuration ({tag} the suspension in another thread) did not '
+                        'log exactly its changes', 'observed': got, 'expected': want}
+    if real['main_suspended_entries']:
+      return {'what': 'edits made while tracking is suspended in this thread added entries (another thread '
+                      'ran meanwhile)', 'entries': real['main_suspended_entries']}
+    if real['main_p'] != [1, 8]:
+      return {'what': 'tracking was not back on after the suspension ended', 'history of p': real['main_p']}
+    return None
   if case.get('stack'):
     return stack_oracle(case, real)
   if real['init'] == 'err':
@@ -294,6 +374,8 @@ def classify(case, fail):
 
 
 def nontrivial(case, real):
+  if real.get('threads_stage'):
+    return ('threads', case['how'], case['depth'], case['second'])
   if case.get('stack'):
     return ('stack', case['edit'], tuple(case['files']))
   if real['init'] == 'err' or not real['steps']:
